@@ -64,6 +64,15 @@ def cases(tier, seed):
     for i in range(300 if tier == 'quick' else 20000):
         objs = [obj(1) for _ in range(rng.randint(3, 6))]
         add(rng.choice(afns), objs, ('objfn-array', 'unordered'))
+    # the SAME object (one instance) occurring several times in an argument, with other objects in between
+    alias = ['$merge([$[0], $[1], $[0]])', '$merge([$[1], $[0], $[1], $[0]])', '($o := $[0]; $merge([$o, {"a": 99, "z": 1}, $o]))', '($o := $[0]; $p := $[1]; $merge([$o, $p, $o, $p]))', '$merge([$[0], $[0]])',
+             '$merge($append($, $[0]))', '$keys([$[0], $[1], $[0]])', '$spread([$[0], $[1], $[0]])', '$count($spread([$[0], $[0]]))', '($o := $[0]; [$o, $[1], $o]{$string($count($keys($))): $count($)})',
+             '($o := $[0]; $distinct([$o, $[1], $o]))', '($o := $[0]; $lookup([$o, $[1], $o], "a"))', '($o := $[0]; [$o, $[1], $o].a)', '($o := $[0]; $each($merge([$o, $[1], $o]), function($v, $k){$k}))',
+             '($o := $[0]; $o ~> |$|{"n": 1}| ~> $merge())', '($o := $[0]; $sift($merge([$o, $[1], $o]), function($v){true}))']
+    pairs = [[{'a': 1, 'm': 'ro'}, {'a': 2, 'm': 'rw'}], [{'m': 'ro'}, {'m': 'rw', 'x': 1}], [{'a': 1}, {}], [{}, {'a': 1}], [{'a': {'b': 1}}, {'a': {'b': 2}}], [{'a': 1, 'b': 2}, {'b': 3, 'c': 4}]]
+    for e in alias:
+        for d in pairs:
+            add(e, d, ('alias', 'unordered'))
     for f in fns:
         add(f, [obj(), obj()], ('objfn', 'unordered'))
         add(f, 5, ('objfn',)); add(f, 'str', ('objfn',))
